@@ -516,6 +516,16 @@ def valid_ops(rng: random.Random, s: State, tune: dict) -> list[tuple[str, float
         others = [j for j in s.showdown_indices if j != i]
         if others:
             out.append((f'show - {rng.choice(others)}', 1))
+        if i is not None and s.hole_cards[i]:
+            # tabling other cards than the ones held (the way unknown hole cards are revealed); with
+            # warnings as errors also one card named for every slot, which must be refused (F23)
+            deck = [c for c in s.deck_cards if c]
+            k = len(s.hole_cards[i])
+            if len(deck) >= k:
+                cs = rng.sample(deck, k)
+                out.append((f'show {_cards_text(cs)} -', 0.3))
+                if tune.get('warnerr') and k > 1:
+                    out.append((f'show {_cards_text([cs[0]] * k)} -', 0.3))
     if s.can_kill_hand():
         out.append(('kill -', 3))
         out.append((f'kill {rng.choice(list(s.hand_killing_indices))}', 2))
